@@ -210,6 +210,10 @@ SlotUniverse(s) ==
                                 Op("add", Op("sub", Op("sub", AdaE(PN), AdaE(PN)), TokE(Lit(3))), Op("add", TokE(Lit(10)), AdaE(Lit(1500000)))),
                                 Op("add", Op("sub", Op("sub", TokE(PN), TokE(PN)), AdaE(Lit(1000000))), AdaE(Lit(3000000))),
                                 Op("add", Op("sub", Op("sub", Source, Source), TokE(Lit(3))), Op("add", TokE(Lit(10)), AdaE(Lit(1500000))))}
+      \* an optional output: kept whenever its value holds anything at all (tokens without lovelace included)
+      [] s = "b_optional_out" -> {AdaE(PN), TokE(PN), Op("add", AdaE(PM), TokE(PN)), Op("sub", Op("add", AdaE(PN), TokE(Lit(4))), AdaE(PN)),
+                                  Op("sub", Op("sub", Source, AdaE(Lit(5000000))), TokE(PM)), AnyA(Hex(H2), Str(<<98>>), PN),
+                                  Op("sub", AdaE(PN), AdaE(PN))}
       [] s \in {"b_mint", "b_burn"} -> {TokE(PN), TokE(Op("sub", PN, PM)), TokE(Op("add", PN, PM)), AnyA(Hex(H2), Str(<<98>>), U("neg", PN))}
       \* the mint field aggregates blocks: two mints of one asset, a mint and a burn of it, the same over two assets of a policy
       [] s \in {"b_mint2", "b_mint_burn", "b_burn2", "b_mint3"} -> {TokE(PN), Op("add", TokE(PN), AnyA(Hex(H1), Str(<<98>>), PN)), AnyA(Hex(H2), Str(<<98>>), PN)}
@@ -248,6 +252,7 @@ WithSlot(s, e) ==
       [] s = "reference" -> [BaseTx EXCEPT !.references = <<[name |-> "rf", ref |-> e]>>]
       [] s = "two_references" -> [BaseTx EXCEPT !.references = [i \in DOMAIN e |-> [name |-> RefNames[i], ref |-> e[i]]]]
       [] s = "b_out_amount" -> [BaseB EXCEPT !.outputs = <<Out("", FALSE, Receiver, e, Absent)>>]
+      [] s = "b_optional_out" -> [BaseB EXCEPT !.outputs = <<Out("maybe", TRUE, Receiver, e, Absent)>>]
       [] s = "b_mint" -> [BaseB EXCEPT !.mints = <<[amount |-> e, redeemer |-> Absent]>>]
       [] s = "b_burn" -> [BaseB EXCEPT !.burns = <<[amount |-> e, redeemer |-> Absent]>>]
       [] s = "b_mint2" -> [BaseB EXCEPT !.mints = <<[amount |-> e, redeemer |-> Absent], [amount |-> SameClassAs(e, PM), redeemer |-> Absent]>>]
